@@ -67,6 +67,64 @@ func init() {
 	Exec["bitword.Get/any"] = Exec["bitword.Get"]
 	Exec["bitword.FirstDiff/any"] = Exec["bitword.FirstDiff"]
 	Exec["bitword.ToStr/any"] = Exec["bitword.ToStr"]
+	// history / batch ops
+	Exec["bitword.Session/scribble"] = func(a []V) string {
+		w := c08bw(a)
+		m := 8 / a[0].Int()
+		first := make([]string, 0, len(a[1].L))
+		for _, x := range a[1].L {
+			ws := w.FromStr(x.Str())
+			first = append(first, Bytes(ws))
+			for j := range ws { // the caller reuses the slice it was given
+				ws[j] = ^ws[j]
+			}
+		}
+		probes := make([]string, 0, len(a[2].L))
+		for _, x := range a[2].L {
+			p := x.Str()
+			ws := w.FromStr(p)
+			gets := make([]byte, len(p)*m)
+			for i := range gets {
+				gets[i] = w.Get(p, i)
+			}
+			probes = append(probes, L(Bytes(ws), Bytes(gets), Str(w.ToStr(ws))))
+		}
+		return L(L(first...), L(probes...))
+	}
+	Exec["bitword.FromStrs/batch"] = func(a []V) string {
+		w := c08bw(a)
+		var ss []string
+		for _, r := range a[2].L {
+			e := a[1].L[r.L[0].Int()].Str()
+			for k := r.L[1].Int(); k > 0; k-- {
+				ss = append(ss, e)
+			}
+		}
+		return ByteSlices(w.FromStrs(ss))
+	}
+	Exec["bitword.ToStrs/batch"] = func(a []V) string {
+		w := c08bw(a)
+		var wss [][]byte
+		for _, r := range a[2].L {
+			e := a[1].L[r.L[0].Int()].Bytes()
+			for k := r.L[1].Int(); k > 0; k-- {
+				wss = append(wss, e)
+			}
+		}
+		return Strs(w.ToStrs(wss))
+	}
+	Exec["bitword.ToStrs/flat"] = func(a []V) string {
+		w := c08bw(a)
+		src := a[1].Bytes()
+		flat := make([]byte, len(src))
+		copy(flat, src)
+		wins := make([][]byte, len(a[2].L))
+		for i, r := range a[2].L {
+			wins[i] = flat[r.L[0].Int():r.L[1].Int()] // capacity runs on to the end of the buffer
+		}
+		res := w.ToStrs(wins)
+		return L(Strs(res), Bytes(flat))
+	}
 	Register("C08", genC08)
 }
 
@@ -437,6 +495,7 @@ func genC08(g *Gen) {
 	c08Large(g, get, fromStr, toStr, firstDiff)
 	c08Lists(g)
 	c08Wide(g)
+	c08Hist(g)
 }
 
 // c08Large: inputs whose byte / bit / word offsets cross 2^8 and 2^16 (narrowing conversions of
@@ -756,4 +815,164 @@ func c08sgn(x int) int {
 		return 1
 	}
 	return 0
+}
+
+// c08Hist: histories and batches (the functions are pure; the executors create the situations in which
+// hidden sharing, a work split by GOMAXPROCS or a write into the caller's buffer would show).
+func c08Hist(g *Gen) {
+	pairs := func(ps [][2]int) string {
+		xs := make([]string, len(ps))
+		for i, p := range ps {
+			xs[i] = L(Int(p[0]), Int(p[1]))
+		}
+		return L(xs...)
+	}
+	// ---- scribble sessions: all 256 byte values x 4 widths
+	for _, n := range c08Widths {
+		var one, probes []string
+		for b := 0; b < 256; b++ {
+			one = append(one, Bytes([]byte{byte(b)}))
+		}
+		probes = append(probes, one...)
+		for b := 0; b < 256; b += 3 {
+			probes = append(probes, Bytes([]byte{byte(b), byte(b + 1), byte(b + 2)}))
+		}
+		probes = append(probes, Bytes(nil))
+		g.Stat("hist-scribble")
+		g.Do("bitword.Session/scribble", L(Int(n), L(one...), L(probes...)), fmt.Sprintf("scribble/n%d/1byte", n))
+		// longer strings scribbled, then the same strings, their single bytes and fresh strings probed
+		for q := 0; q < g.N(3, 40); q++ {
+			var scr, prb []string
+			for k := 0; k < 12; k++ {
+				s := g.R.Bytes(g.R.Range(0, 5), alphabets[g.R.Intn(len(alphabets))])
+				scr = append(scr, Bytes(s))
+				prb = append(prb, Bytes(s))
+				for _, c := range s {
+					if g.R.Intn(2) == 0 {
+						prb = append(prb, Bytes([]byte{c}))
+					}
+				}
+				prb = append(prb, Bytes(g.R.Bytes(g.R.Range(1, 4), nil)))
+			}
+			g.Stat("hist-scribble")
+			g.Do("bitword.Session/scribble", L(Int(n), L(scr...), L(prb...)), fmt.Sprintf("scribble/n%d/mixed", n))
+		}
+	}
+	g.Exhaust = append(g.Exhaust, "Session/scribble: FromStr of all 256 one-byte strings x 4 widths, every returned slice overwritten by the caller, then FromStr / Get at every index / ToStr(FromStr) of all one-byte strings and of 86 three-byte strings covering all byte values")
+
+	// ---- big batches (>= 4096 elements; sizes not divisible by 3, 33, 97 or 16), compact arguments
+	sizes := []int{4097, 4103, 4999, 5000}
+	for wi, n := range c08Widths {
+		m := 8 / n
+		mx := byte(1<<uint(n) - 1)
+		// ToStrs: word lists up to 3 bytes + a partial byte; the last run is a non-empty element
+		var al []string
+		for k := 0; k < 6; k++ {
+			ws := make([]byte, g.R.Range(1, 3*m+m/2+1))
+			for i := range ws {
+				ws[i] = byte(g.R.Intn(int(mx) + 1))
+			}
+			ws[len(ws)-1] = mx
+			al = append(al, Bytes(ws))
+		}
+		al = append(al, Bytes(nil))
+		for t := 0; t < 2; t++ {
+			size := sizes[(wi+2*t)%len(sizes)]
+			var runs [][2]int
+			left := size - 150
+			for left > 0 {
+				r := g.R.Range(1, 300)
+				if r > left {
+					r = left
+				}
+				runs = append(runs, [2]int{g.R.Intn(len(al)), r})
+				left -= r
+			}
+			runs = append(runs, [2]int{g.R.Intn(6), 150})
+			g.Stat("hist-batch")
+			g.Do("bitword.ToStrs/batch", L(Int(n), L(al...), pairs(runs)), fmt.Sprintf("batch/to/n%d/size%d", n, size))
+		}
+		// FromStrs
+		var sl []string
+		for k := 0; k < 6; k++ {
+			sl = append(sl, Bytes(g.R.Bytes(g.R.Range(1, 3), nil)))
+		}
+		sl = append(sl, Bytes(nil))
+		size := sizes[(wi+1)%len(sizes)]
+		var runs [][2]int
+		left := size - 150
+		for left > 0 {
+			r := g.R.Range(1, 300)
+			if r > left {
+				r = left
+			}
+			runs = append(runs, [2]int{g.R.Intn(len(sl)), r})
+			left -= r
+		}
+		runs = append(runs, [2]int{g.R.Intn(6), 150})
+		g.Stat("hist-batch")
+		g.Do("bitword.FromStrs/batch", L(Int(n), L(sl...), pairs(runs)), fmt.Sprintf("batch/from/n%d/size%d", n, size))
+		// small batches through the same ops (the compact form itself)
+		g.Do("bitword.ToStrs/batch", L(Int(n), L(al...), pairs([][2]int{{6, 2}, {0, 1}, {1, 3}, {6, 0}})), fmt.Sprintf("batch/to/n%d/small", n))
+		g.Do("bitword.FromStrs/batch", L(Int(n), L(sl...), pairs([][2]int{{6, 2}, {0, 1}, {1, 3}})), fmt.Sprintf("batch/from/n%d/small", n))
+	}
+
+	// ---- ToStrs over windows of one flat buffer
+	for _, n := range c08Widths {
+		m := 8 / n
+		mx := byte(1<<uint(n) - 1)
+		// exhaustive: a buffer of 2m+1 all-ones words cut at every pair of split points
+		ln := 2*m + 1
+		flat := make([]byte, ln)
+		for i := range flat {
+			flat[i] = mx
+		}
+		for k1 := 0; k1 <= ln; k1++ {
+			for k2 := k1; k2 <= ln; k2++ {
+				g.Stat("hist-flat-exh")
+				g.Do("bitword.ToStrs/flat", L(Int(n), Bytes(flat), pairs([][2]int{{0, k1}, {k1, k2}, {k2, ln}})),
+					fmt.Sprintf("flat/n%d/adj/r%d/r%d", n, k1%m, (k2-k1)%m))
+			}
+			// a prefix, then the whole buffer
+			g.Do("bitword.ToStrs/flat", L(Int(n), Bytes(flat), pairs([][2]int{{0, k1}, {0, ln}})), fmt.Sprintf("flat/n%d/prefix/r%d", n, k1%m))
+		}
+		for q := 0; q < g.N(60, 3000); q++ {
+			ln := g.R.Range(1, 40)
+			flat := make([]byte, ln)
+			for i := range flat {
+				flat[i] = byte(g.R.Intn(int(mx)+1)) | byte(g.R.Intn(2))
+			}
+			var wins [][2]int
+			partial := 0
+			if g.R.Intn(2) == 0 { // adjacent partition
+				lo := 0
+				for lo < ln {
+					hi := lo + g.R.Range(0, 2*m+1)
+					if hi > ln {
+						hi = ln
+					}
+					wins = append(wins, [2]int{lo, hi})
+					if (hi-lo)%m != 0 {
+						partial++
+					}
+					lo = hi
+					if len(wins) > 12 {
+						break
+					}
+				}
+			} else { // overlapping
+				for k := g.R.Range(1, 5); k > 0; k-- {
+					lo := g.R.Intn(ln + 1)
+					hi := g.R.Range(lo, ln)
+					wins = append(wins, [2]int{lo, hi})
+					if (hi-lo)%m != 0 {
+						partial++
+					}
+				}
+			}
+			g.Stat("hist-flat")
+			g.Do("bitword.ToStrs/flat", L(Int(n), Bytes(flat), pairs(wins)), fmt.Sprintf("flat/n%d/rand/partial%v", n, partial > 0))
+		}
+	}
+	g.Exhaust = append(g.Exhaust, "ToStrs/flat: a buffer of 2*(8/n)+1 all-ones words cut into three adjacent windows at every pair of split points, and every prefix followed by the whole buffer, x 4 widths")
 }
